@@ -22,7 +22,7 @@ from vlib.s2smt import model_value, Unencodable
 LEVEL = "other"
 
 CONSTS = {"2": sp.Integer(2), "-1": sp.Integer(-1), "1/2": sp.Rational(1, 2), "3": sp.Integer(3)}
-FUNCS = {"exp": sp.exp, "sin": sp.sin, "log": sp.log}
+FUNCS = {"exp": sp.exp, "sin": sp.sin, "log": sp.log, "atan2": sp.atan2, "besselj": sp.besselj}
 
 
 def n_leaves(r):
@@ -61,6 +61,9 @@ def recipes(max_leaves, max_depth, rng=None, sample=None):
                 new_ops.append((op, a, b))
         for a, b in itertools.product(pool, repeat=2):
             new_ops.append(("pow", a, b))
+            if d == 1:
+                for f in ("atan2", "besselj"):        # functions of several arguments: EVERY argument must be dimensionless
+                    new_ops.append(("fn", f, a, b))
         for a, b, c in itertools.combinations_with_replacement(pool, 3):
             if n_leaves(a) + n_leaves(b) + n_leaves(c) <= max_leaves:
                 for op in ("add", "mul", "min"):
@@ -118,7 +121,7 @@ def rstr(r):
     if op == "sym":
         return "x"
     if op == "fn":
-        return f"{r[1]}({rstr(r[2])})"
+        return f"{r[1]}({','.join(rstr(x) for x in r[2:])})"
     return f"{op}({','.join(rstr(x) for x in r[1:] if isinstance(x, tuple))})"
 
 
